@@ -41,6 +41,8 @@ def run(tier, seed):
         jobs.append(Job("c07", "optim", "spqlios-fma", {"mode": "keyset", "lambda": lam, "first": 208 - lam, "seed": core.splitmix(seed, 90 + lam) % 100000, "count": 20000}, label="keyset %d after %d" % (lam, 208 - lam)))
     jobs.append(Job("c07", "optim", "fftw", {"mode": "keyset", "lambda": 128, "seed": seed % 1000 + 3, "bkrows": 100}, label="keyset fftw"))
     jobs.append(Job("c07", "debug", "spqlios-fma", {"mode": "keyset", "lambda": 80, "seed": seed % 1000 + 4, "bkrows": 60, "count": 5000}, label="keyset debug"))
+    for i, b in enumerate(("optim", "debug")):
+        jobs.append(Job("c07", b, "spqlios-fma", {"mode": "kslayouts", "nin": 8192 if q else 65536, "seed": core.splitmix(seed, 95 + i) % 100000}, label="kslayouts %s" % b))
     jobs.append(Job("c07", "optim", "spqlios-fma", {"mode": "keys", "count": 256 if q else 4096, "seed": seed}, label="keys"))
     for k in range(2):
         jobs.append(Job("c07", "optim" if k == 0 else "debug", "spqlios-fma", {"mode": "seeding"}, rc_params=core.rc_params(core.splitmix(seed, 50 + k), 80000 if q else 800000), label="seeding %d" % k))
@@ -127,7 +129,7 @@ def run(tier, seed):
     res.exhaustive_nontrivial = max(res.exhaustive_nontrivial, 0)
     res.rule = ("E5: exact errors (phase - message, integer arithmetic with the secret keys, no FFT in the oracle) of fresh LWE encryptions at every alpha = 2^-5..2^-30 (dimensions 1, 12, 40, 500, 630), TLWE polynomial / "
                 "constant and TGSW encryptions (N=1024, k in {1,2}, three back-ends), gate-API encryptions, every non-zero-digit row of the key-switching key and every coefficient of every bootstrapping-key row of generated "
-                "default key sets (both parameter sets, several seeds, also after a key set of the other parameter set was generated in the same process). Reference law = the implemented sampler, trunc-toward-zero(N(0,alpha^2) 2^32), whose exact discrete variance and kurtosis the driver computes; tests at 8 "
+                "default key sets (both parameter sets, several seeds, also after a key set of the other parameter set was generated in the same process), and every row of key-switching keys made by lweCreateKeySwitchKey for the small digit layouts (t,basebit) in {(1,1),(2,1),(1,2),(3,1),(2,2)} (1..6 rows per source coefficient, 8192 source coefficients, one noise level each). Reference law = the implemented sampler, trunc-toward-zero(N(0,alpha^2) 2^32), whose exact discrete variance and kurtosis the driver computes; tests at 8 "
                 "estimator standard deviations: variance two-sided (upper bound +1 unit^2 where b passes through the FFT product), mean, kurtosis, population mean of key-switching rows (recentring), digit-0 rows trivial, "
                 "chi-square of mask bytes / top bits, lag 1..8 correlation, distinct words, key entries in {0,1} and balanced. E1 rapidcheck (seeding): for generated histories of encryptions / key generations / raw sampler draws, "
                 "re-seeding with the same seed reproduces key and ciphertext bytes whatever ran before and whichever thread draws (seed on one thread, draw on another), a different seed differs, two encryptions of one message differ, re-seeding between two encryptions reproduces the first; "
